@@ -294,7 +294,7 @@ Lemma case_sound : forall c a,
   fmt (c_toks c) = Some (print (norm a)) /\
   map strip (c_ftoks c) = map strip (print (norm a)) /\
   parse (c_ftoks c) = Some (norm a) /\
-  c_idem c = true /\ c_file_ok c = true.
+  c_idem c = true /\ c_file_ok c = true /\ c_conc_ok c = true.
 Proof.
   intros c a Ha Hp Hs Hast. unfold agrees in Ha. unfold prop_ok in Hp. rewrite Hs, Hast in *.
   split_and.
